@@ -381,6 +381,29 @@ def c11_require(agg):
     return need
 
 
+# ------------------------------------------------------------------ C12
+
+def c12_env(b):
+    return {"IPCMON_SNDBUF": 8192 if b % 8 != 7 else 16384}
+
+
+def c12_plan(tier, seed):
+    q = tier == "quick"
+    out = jobs("os-debug", "c12", 16, c12_env, {"max_packets": 3 if q else 6}, timeout=3000)
+    if not q:
+        out += jobs("os-release", "c12", 16, c12_env, {"max_packets": 4}, timeout=3000)
+    return out
+
+
+def c12_require(agg):
+    st = agg["stats"]
+    need = []
+    for k, n in (("crash_mid-send", 100), ("crash_before-send", 20), ("crash_after-send", 20), ("runs_with_partial_message", 50), ("shapes", 48)):
+        if st.get(k, 0) < n:
+            need.append("%s < %d" % (k, n))
+    return need
+
+
 # ------------------------------------------------------------------ C19
 
 def c19_plan(tier, seed):
@@ -434,6 +457,22 @@ NOTES = ("Runtime monitoring and sanitizers. ./check <id> rebuilds the harness (
 NOT_APPLICABLE = {}
 
 PROPS = {
+    "C12": {
+        "plan": c12_plan,
+        "require": c12_require,
+        "level": "fault_enumeration",
+        "exhaustive": True,
+        "level_text": "Fault enumeration, exhaustive inside the grid: for every shape in packets 1..3 (quick) / 1..6 (thorough) x attachments {none, sender+region} x "
+                      "surviving sender {0,1} x observer {recv, try_recv, select, router}, an exec'd child is SIGKILLed before the k-th socketpair/sendmsg/send/close "
+                      "of the target send for every k from 0 to one past the last call (learned by a counting run); the observer runs before or after the crash "
+                      "in alternation. Earlier messages must arrive intact, the target intact or not at all, Disconnected/closure only without a survivor, the "
+                      "survivor's later messages must arrive in order and the observer must not wait forever (logical hang rule).",
+        "level_note": "Crash points are the libc-level system-call boundaries of the sending thread; a crash in the middle of a system call is not distinguishable "
+                      "from one before or after it at this level (the kernel completes or does not start a sendmsg). Packets are made small with a reported SO_SNDBUF of 8 KiB.",
+        "technique": "runtime monitoring: exhaustive crash-point injection (SIGKILL before the k-th interposed call) with an outcome oracle over four observer kinds",
+        "rule": "case = (packets, attachments, survivor, observer, crash index k); every k in 0..=N for the N calls the send makes is run; distinct = that tuple; all are non-trivial",
+        "assumptions": ["SIGKILL delivered by the interposer immediately before the k-th call stands for a crash at that boundary"],
+    },
     "C11": {
         "plan": c11_plan,
         "require": c11_require,
